@@ -35,7 +35,7 @@ BOUNDARIES = ["none", "periodic", "nearest", "reflect", 0, 3]
 # argwhere, flatnonzero, boolean-mask indexing; pad ZeroDivisionError; repeat "Need array(s) to concatenate"; triu
 # ZeroDivisionError in arange; setitem "shape mismatch").  An expression that cannot be built has no computed result, so
 # C25 does not speak about it; those operations are C20-C27's own domain.
-ZERO_LENGTH_OK = {"unary", "scalar", "binary", "astype", "clip", "getitem", "transpose", "flip", "rot90", "squeeze", "expand_dims",
+ZERO_LENGTH_OK = {"reduce", "unary", "scalar", "binary", "astype", "clip", "getitem", "transpose", "flip", "rot90", "squeeze", "expand_dims",
                   "concatenate", "stack", "block", "broadcast_to", "rechunk", "searchsorted", "digitize", "isin", "diff", "take",
                   "tile", "compute_chunk_sizes"}
 # operations usable when chunk sizes are unknown
@@ -200,9 +200,9 @@ def gen_step(rng, v, unknown=False):
         return {"op": "reduce", "fn": rng.choice(("sum", "max", "any", "mean", "count_nonzero")), "axis": None, "keepdims": rng.random() < 0.5,
                 "split_every": rng.choice((None, 2))}
     if op == "reduce":
-        if has0:
-            return None
-        fn = rng.choice(REDUCE)
+        # zero-length inputs: only the order reductions over an axis that NumPy accepts (C22 leaves zero-length arrays out
+        # of its domain; their METADATA is still C25's business)
+        fn = rng.choice(REDUCE if not has0 else ("min", "max", "sum", "any"))
         if fn in ("argmax", "argmin"):
             if nd == 0:
                 return None
@@ -305,8 +305,8 @@ def gen_step(rng, v, unknown=False):
         # self-consistent but shorter array than NumPy: C24's business); linear_ramp/mean are compared on finite data only.
         lim = {"reflect": min(shape) - 1, "symmetric": min(shape), "wrap": min(shape)}.get(mode, 3)
         lim = max(0, min(3, lim))
-        if mode in ("linear_ramp", "mean") and v.dtype.kind in "fc" and not np.isfinite(v).all():
-            return None
+        if mode in ("linear_ramp", "mean") and (v.dtype.kind not in "fc" or not np.isfinite(v).all()):
+            return None   # (integer 'mean'/'linear_ramp' pads round differently from NumPy: values only, C24's business)
         if rng.random() < 0.4:
             pw = rng.randint(0, lim)
         else:
@@ -315,7 +315,8 @@ def gen_step(rng, v, unknown=False):
         if mode == "constant" and rng.random() < 0.5:
             d["constant_values"] = rng.randint(-2, 2)
         if mode in ("maximum", "mean", "minimum") and rng.random() < 0.4:
-            d["stat_length"] = rng.randint(1, 3)
+            # Calibration: stat_length larger than the axis gives values different from NumPy (self-consistent metadata): C24
+            d["stat_length"] = rng.randint(1, max(1, min(3, min(shape))))
         if mode == "linear_ramp" and rng.random() < 0.5:
             d["end_values"] = rng.randint(-2, 2)
         return d
@@ -368,7 +369,15 @@ def gen_step(rng, v, unknown=False):
         if not any(depth.values()):
             depth[str(rng.randrange(nd))] = 1 if min(shape) >= 1 else 0
         shift = {a: (rng.choice((-1, 1)) * rng.randint(1, d) if d else 0) for a, d in depth.items()}
-        return {"op": op, "depth": depth, "shift": shift, "boundary": rng.choice(BOUNDARIES), "form": rng.choice(("dict", "dict", "tuple"))}
+        boundary = rng.choice(BOUNDARIES)
+        if boundary == "none" and rng.random() < 0.5:
+            # asymmetric depth (lo, hi): dask allows it with boundary 'none' only; the stencil looks |s| cells to one side
+            for a, d in list(depth.items()):
+                if d:
+                    s_ = shift[a]
+                    other = rng.randint(0, min(2, shape[int(a)]))
+                    depth[a] = [abs(s_) + rng.randint(0, d - abs(s_)), other] if s_ > 0 else [other, abs(s_) + rng.randint(0, d - abs(s_))]
+        return {"op": op, "depth": depth, "shift": shift, "boundary": boundary, "form": rng.choice(("dict", "dict", "tuple"))}
     if op == "unique":
         return {"op": op}
     if op == "bincount":
@@ -440,7 +449,7 @@ def shifted(b, shifts):
 def _np_map_overlap(x, depth, shift, boundary):
     if boundary == "none":
         return shifted(x, shift)
-    pw = [(int(depth.get(str(a), 0)),) * 2 for a in range(x.ndim)]
+    pw = [(int(depth.get(str(a), 0)),) * 2 for a in range(x.ndim)]   # (asymmetric depths only occur with boundary 'none')
     if boundary == "periodic":
         p = np.pad(x, pw, mode="wrap")
     elif boundary == "nearest":
@@ -592,7 +601,7 @@ def apply_step(step, X, lib):
         depth, shift, boundary = step["depth"], step["shift"], step["boundary"]
         if lib == "np":
             return _np_map_overlap(X, depth, shift, boundary)
-        d = {int(k): int(v) for k, v in depth.items()}
+        d = {int(k): (tuple(v) if isinstance(v, list) else int(v)) for k, v in depth.items()}
         if step["form"] == "tuple":
             d = tuple(d.get(a, 0) for a in range(X.ndim))
         return mod.map_overlap(shifted, X, depth=d, boundary=boundary, trim=True, dtype=X.dtype, shifts=shift)
